@@ -9,7 +9,21 @@ import (
 	"github.com/alibaba/RedisShake/redis-shake/filter"
 )
 
-func init() { probes["C13"] = probeC13 }
+// C13 cases come in two kinds: "hfk" (HandleFilterKeyWithCommand called directly) and "inc" (the same filter reached
+// through the incremental parser and sender, as C03 drives them)
+func init() {
+	batchProbes["C13"] = func(cases [][]string, out *bufio.Writer) {
+		var inc [][]string
+		for _, c := range cases {
+			if c[1] == "inc" {
+				inc = append(inc, c)
+			} else {
+				probeC13(c, out)
+			}
+		}
+		batchIncr(inc, out)
+	}
+}
 
 func setKeyFilter(kind, list string) {
 	conf.Options.FilterKeyWhitelist = nil
